@@ -608,13 +608,15 @@ func isScalar(v value) bool {
 
 // boundsCheck forks a panic path if idx can be outside [0,n).
 func (m *Machine) boundsCheck(idx *Term, n int, tIdx types.Type) {
-	w := idx.S.W
-	// as unsigned comparison this covers negative values of signed indices
-	in := m.tt.BVCmp("bvult", idx, m.tt.BV(uint64(n), w))
-	if w < 64 && basicOf(tIdx).signed {
-		// sign matters for narrow signed index types
-		in = m.tt.And(m.tt.BVCmp("bvsle", m.tt.BV(0, w), idx), m.tt.BVCmp("bvslt", idx, m.tt.BV(uint64(n), w)))
+	// widen to 64 bits by the index type's signedness; an unsigned 64-bit
+	// comparison then also covers negative values
+	var wide *Term
+	if basicOf(tIdx).signed {
+		wide = m.tt.SignExt(idx, 64)
+	} else {
+		wide = m.tt.ZeroExt(idx, 64)
 	}
+	in := m.tt.BVCmp("bvult", wide, m.tt.BV(uint64(n), 64))
 	if !m.Branch(in) {
 		panic(targetRuntimeError(fmt.Sprintf("index out of range [symbolic] with length %d", n)))
 	}
@@ -747,8 +749,7 @@ func (m *Machine) symIndexAddr(instr *ssa.IndexAddr, arr []value, idx *Term, tId
 
 func (m *Machine) sliceIndex(v value, what string, max int) int64 {
 	if t, ok := v.(*Term); ok {
-		w := t.S.W
-		in := m.tt.BVCmp("bvule", t, m.tt.BV(uint64(max), w))
+		in := m.tt.BVCmp("bvule", m.tt.ZeroExt(t, 64), m.tt.BV(uint64(max), 64))
 		if !m.Branch(in) {
 			panic(targetRuntimeError("slice bounds out of range [symbolic " + what + "]"))
 		}
